@@ -1,1 +1,235 @@
-/-! Property theorems for C15 (stub: none yet). -/
+import TxdbusModel.Proofs.Intro.Final
+/-!
+# C15 - Introspection XML round-trips every interface definition
+
+Objects: `generate` (= `generateIntrospectionXML`, as SAX events), `getInterfaces` (= `getInterfacesFromXML`:
+`IntrospectionHandler` run over the events, on a heap of `DBusInterface` objects and the process-wide cache
+`knownInterfaces`), `callCheck` (= the method lookup and argument-count check of `RemoteDBusObject.callRemote`).
+Specification vocabulary (Intro/Spec.lean): `SameDefinition` / `SameDefinitions`, `World.parseBlocks`,
+`DeclOp` / `declare`, `attrSafe`.
+
+`decl cs` below is what the exporter declared for the object: the definitions of its interfaces (in the
+order of `getInterfaces()`) followed by the three standard interfaces `generateIntrospectionXML` appends.
+-/
+namespace Txdbus.Intro
+
+/-- **C15, round trip (general form).**  For every exported object whose interfaces were declared through the
+API (any members, any signatures from the type grammar, any access and change-notification modes, any number
+of interfaces), any content of the heap and of `knownInterfaces`, with or without replacement: generating
+succeeds, parsing the generated events succeeds, and the parse did to the cache exactly what the specification
+`World.parseBlocks` prescribes for a list `rs` of definitions that are, element by element, the *same
+definitions* as the declared ones (same name, methods with `sigIn`/`sigOut`/`nargs`/`nret`, signals, property
+types and access modes). -/
+theorem handler_gen {path : Str} {exported : List (Str × List Cached)} {cs : List Cached}
+    (hobj : exportedGet? exported path = some cs) (hdecl : Declared cs)
+    (heap : List Interface) (known : List (Str × Nat)) (replace : Bool) :
+    ∃ evs st rs, generate path exported = .ok (some evs) ∧
+      getInterfaces heap known replace evs = .ok st ∧
+      SameDefinitions (decl cs) rs ∧
+      st.world = World.parseBlocks (!replace) ⟨heap, known, []⟩ rs := by
+  obtain ⟨hcoh, hwf⟩ := hdecl.wf
+  obtain ⟨evs, st, h1, h2, h3⟩ := parse_generated hobj hcoh hwf heap known replace
+  refine ⟨evs, st, _, h1, h2, sameDefinitions_recIface _ ?_, h3⟩
+  intro i hi
+  rcases List.mem_append.mp hi with hi | hi
+  · obtain ⟨c, hc, rfl⟩ := List.mem_map.mp hi
+    exact hwf c hc
+  · exact std_wf i hi
+
+/-- **C15, round trip.**  If in addition the interface names of the object are pairwise distinct (and none is
+a standard one) and either replacement is requested or none of the names is known locally, the objects
+returned by the parse hold, in order, the same definitions as declared. -/
+theorem handler_gen_fresh {path : Str} {exported : List (Str × List Cached)} {cs : List Cached}
+    (hobj : exportedGet? exported path = some cs) (hdecl : Declared cs)
+    (hnames : ((decl cs).map (·.name)).Nodup)
+    (heap : List Interface) (known : List (Str × Nat)) (replace : Bool)
+    (hfresh : replace = true ∨ ∀ d ∈ decl cs, kget? known d.name = none) :
+    ∃ evs st rs, generate path exported = .ok (some evs) ∧
+      getInterfaces heap known replace evs = .ok st ∧
+      SameDefinitions (decl cs) rs ∧ st.result = rs.map some := by
+  obtain ⟨hcoh, hwf⟩ := hdecl.wf
+  obtain ⟨evs, st, h1, h2, h3⟩ := parse_generated hobj hcoh hwf heap known replace
+  have hall : ∀ i ∈ decl cs, i.WF := by
+    intro i hi
+    rcases List.mem_append.mp hi with hi | hi
+    · obtain ⟨c, hc, rfl⟩ := List.mem_map.mp hi
+      exact hwf c hc
+    · exact std_wf i hi
+  refine ⟨evs, st, _, h1, h2, sameDefinitions_recIface _ hall, ?_⟩
+  exact fresh_result hnames heap known (!replace)
+    (by rcases hfresh with h | h
+        · exact Or.inl (by simp [h])
+        · exact Or.inr h) h3
+
+/-- **C15, proxy.**  Under the same conditions a proxy built from the parsed interfaces takes, for every method
+name, every `interface=` keyword and every number of arguments, the same decision as the declaration:
+unknown method, wrong argument count, or the call sent with the same interface name, signature and return
+signature. -/
+theorem proxy_accepts_same_calls {path : Str} {exported : List (Str × List Cached)} {cs : List Cached}
+    (hobj : exportedGet? exported path = some cs) (hdecl : Declared cs)
+    (hnames : ((decl cs).map (·.name)).Nodup)
+    (heap : List Interface) (known : List (Str × Nat)) (replace : Bool)
+    (hfresh : replace = true ∨ ∀ d ∈ decl cs, kget? known d.name = none) :
+    ∃ evs st, generate path exported = .ok (some evs) ∧
+      getInterfaces heap known replace evs = .ok st ∧
+      ∀ (filter : Option Str) (methodName : Str) (nargs : Nat),
+        callCheck (st.result.filterMap id) filter methodName nargs
+          = callCheck (decl cs) filter methodName nargs := by
+  obtain ⟨evs, st, rs, h1, h2, h3, h4⟩ := handler_gen_fresh hobj hdecl hnames heap known replace hfresh
+  refine ⟨evs, st, h1, h2, fun f m n => ?_⟩
+  have : st.result.filterMap id = rs := by
+    rw [h4]; induction rs with
+    | nil => rfl
+    | cons r rs ih => simp
+  rw [this]
+  exact callCheck_congr h3 f m n
+
+/-- what a declared method accepts: exactly as many arguments as its input signature has complete types -/
+theorem declared_method_count {name : Str} {ops : List DeclOp} {c : Cached} (h : declare name ops = .ok c)
+    {m : Method} (hm : m ∈ c.iface.methods) :
+    ∃ ins outs : List Str, genCompleteTypes m.sigIn = .ok ins ∧ genCompleteTypes m.sigOut = .ok outs ∧
+      m.nargs = ins.length ∧ m.nret = outs.length := by
+  obtain ⟨ins, outs, hi, ho, hn, hr⟩ := (declare_wf h).1.methods m hm
+  exact ⟨ins, outs, hi.1, ho.1, hn, hr⟩
+
+/-- **C15, cache.**  "Interfaces already known locally are reused unless replacement is requested": for the
+`j`-th interface `d` of the object (distinct names),
+* no replacement and `d.name` known as object `k`: the `j`-th returned object *is* `k`, the cache entry stays;
+* replacement requested, or the name unknown: the `j`-th returned object is a new object (allocated by this
+  parse) holding the same definition as `d`, and the cache now maps the name to it;
+* in every case the objects that existed before the parse - the cached ones included - are unchanged. -/
+theorem known_reused_unless_replaced {path : Str} {exported : List (Str × List Cached)} {cs : List Cached}
+    (hobj : exportedGet? exported path = some cs) (hdecl : Declared cs)
+    (hnames : ((decl cs).map (·.name)).Nodup)
+    (heap : List Interface) (known : List (Str × Nat)) (replace : Bool) :
+    ∃ evs st, generate path exported = .ok (some evs) ∧
+      getInterfaces heap known replace evs = .ok st ∧
+      st.interfaces.length = (decl cs).length ∧
+      (∀ id, id < heap.length → st.heap[id]? = heap[id]?) ∧
+      ∀ (j : Nat) (d : Interface), (decl cs)[j]? = some d →
+        (replace = false → ∀ k, kget? known d.name = some k →
+            st.interfaces[j]? = some k ∧ kget? st.known d.name = some k) ∧
+        ((replace = true ∨ kget? known d.name = none) →
+            ∃ id r, st.interfaces[j]? = some id ∧ heap.length ≤ id ∧ st.heap[id]? = some r ∧
+              SameDefinition d r ∧ kget? st.known d.name = some id) := by
+  obtain ⟨hcoh, hwf⟩ := hdecl.wf
+  obtain ⟨evs, st, h1, h2, h3⟩ := parse_generated hobj hcoh hwf heap known replace
+  have hall : ∀ i ∈ decl cs, i.WF := by
+    intro i hi
+    rcases List.mem_append.mp hi with hi | hi
+    · obtain ⟨c, hc, rfl⟩ := List.mem_map.mp hi
+      exact hwf c hc
+    · exact std_wf i hi
+  obtain ⟨⟨ext, hext⟩, hlen, hidx⟩ := parsed_index hnames heap known (!replace) h3
+  simp only [HState.world] at hext hlen hidx
+  refine ⟨evs, st, h1, h2, hlen, ?_, ?_⟩
+  · intro id hid
+    rw [hext]; exact heap_prefix hid
+  · intro j d hd
+    have hf := hidx j d hd
+    constructor
+    · intro hr k hk
+      exact hf.reused (by simp [hr]) k hk
+    · intro hc
+      obtain ⟨id, e1, e2, e3, e4⟩ := hf.fresh (by
+        rcases hc with h | h
+        · exact Or.inl (by simp [h])
+        · exact Or.inr h)
+      exact ⟨id, recIface d, e1, e2, e3, recIface_same (hall d (List.mem_of_getElem? hd)), e4⟩
+
+/-- **Text/event boundary.**  No attribute value written by `_getXml` for a definition with valid names
+(characters of `if_re` / `mbr_re`, generated table) and signatures from the type grammar, none written for the
+three standard interfaces, and no object path (characters of `invalid_obj_path_re`'s allowed set) contains a
+character that would need escaping in a double-quoted XML attribute or that the parser would normalise:
+the unescaped `'...="%s"' % value` formatting of interface.py / introspection.py is faithful on the domain
+of the property. -/
+theorem generated_attribute_values_need_no_escaping :
+    (∀ (i : Interface) (evs : List Event), i.ValidNames → ifaceEvents i = .ok evs →
+        ∀ e ∈ evs, e.attrsSafe = true) ∧
+    introEvents.all Event.attrsSafe = true ∧
+    (∀ s : Str, inClass Gen.Validators.objPathAllowed s = true → s.all attrSafe = true) ∧
+    (∀ ts : List Ty, (renderAll ts).all attrSafe = true) :=
+  ⟨fun _ _ hv h => ifaceEvents_safe hv h, introEvents_safe,
+   fun _ h => inClass_safe objPathAllowed_no_special h, renderAll_safe⟩
+
+/-- **`_xml` cache.**  After any sequence of API operations (arbitrary members, also malformed signatures),
+`introspectionXml` returns the text of the *current* definition: the cache is never stale. -/
+theorem xml_cache_coherent (name : Str) (ops : List Op) {c c' : Cached} {x : List Event}
+    (h : (Cached.new name).applyAll ops = .ok c) (hx : c.getXml = .ok (x, c')) :
+    ifaceEvents c.iface = .ok x := by
+  have hc := Cached.applyAll_coherent ops (Cached.new_coherent name) h
+  have := Cached.getXml_eq hc
+  rw [hx] at this
+  exact this.symm
+
+/-! ## the hypotheses are satisfiable; concrete evaluation of the models -/
+
+/-- a declared interface: containers, a dict entry, nested structs, all access modes, overwritten and deleted
+members, the XML read in between -/
+def sampleOps : List DeclOp :=
+  [ .addMethod "Foo".toList [.array (.dict (.basic .s) .variant), .basic .i, .struct [.basic .i, .basic .i]]
+      [.basic .s],
+    .getXml,
+    .addMethod "Z".toList [] [],
+    .addMethod "a_1".toList [.array (.array (.basic .i))]
+      [.array (.struct [.basic .i, .basic .i]), .array (.dict (.basic .s) (.struct [.basic .i, .variant]))],
+    .addMethod "Foo".toList [.basic .h, .basic .h] [],
+    .addSignal "Sig".toList [.basic .s, .array (.dict (.basic .s) .variant), .array (.basic .s)],
+    .addSignal "E".toList [],
+    .addProperty "P".toList [.array (.dict (.basic .s) .variant)] true true .true,
+    .addProperty "Q".toList [.basic .s] false true .false,
+    .addProperty "R".toList [.basic .i] true false .invalidates,
+    .getXml,
+    .delMethod "Z".toList,
+    .delProperty "Q".toList ]
+
+def sampleExported : List (Str × List Cached) :=
+  match declare "org.a.B".toList sampleOps, declare "org.a.b".toList [] with
+  | .ok c, .ok c' => [("/a".toList, [c, c']), ("/a/b".toList, [])]
+  | _, _ => []
+
+example : ∃ cs, exportedGet? sampleExported "/a".toList = some cs ∧ Declared cs ∧
+    ((decl cs).map (·.name)).Nodup ∧ cs.length = 2 := by
+  refine ⟨_, rfl, ?_, by decide, rfl⟩
+  intro c hc
+  simp only [List.mem_cons, List.not_mem_nil, or_false] at hc
+  rcases hc with rfl | rfl
+  · exact ⟨"org.a.B".toList, sampleOps, rfl⟩
+  · exact ⟨"org.a.b".toList, [], rfl⟩
+
+/-- what comes back for the sample: per returned interface the methods (name, nargs, nret), the signals'
+argument counts and the properties' access strings -/
+def sampleSummary : List (List (Str × Int × Int) × List Int × List Str) :=
+  match generate "/a".toList sampleExported with
+  | .ok (some evs) =>
+    match getInterfaces [] [] false evs with
+    | .ok st => (st.result.filterMap id).map fun i =>
+        (i.methods.map fun m => (m.name, m.nargs, m.nret), i.signals.map (·.nargs),
+         i.properties.map (·.access))
+    | .error _ => []
+  | _ => []
+
+/-- the model evaluated on the sample: the first interface comes back with 2 methods (`Foo` counted as 2
+arguments after the overwrite, `a_1` as 1 in / 2 out - an `a{s(iv)}` is one argument), 2 signals, 2 properties;
+the second, empty one as empty; the standard ones follow -/
+example : sampleSummary.take 2 =
+    [([("Foo".toList, 2, 0), ("a_1".toList, 1, 2)], [0, 3], ["readwrite".toList, "read".toList]),
+     ([], [], [])] ∧ sampleSummary.length = 2 + stdIfaces.length := by decide
+
+example : ∃ i : Interface, i.ValidNames ∧ i.methods.length = 1 :=
+  ⟨⟨"org.a.B".toList, [⟨"Foo".toList, 1, 0, "a{sv}".toList, []⟩], [], []⟩,
+   ⟨by decide, (fun m hm => by
+      simp only [List.mem_cons, List.not_mem_nil, or_false] at hm
+      subst hm
+      exact ⟨by decide, [.array (.dict (.basic .s) .variant)], [], by decide, by decide⟩),
+    (fun s hs => by cases hs), (fun p hp => by cases hp)⟩, rfl⟩
+
+#print axioms handler_gen
+#print axioms handler_gen_fresh
+#print axioms proxy_accepts_same_calls
+#print axioms declared_method_count
+#print axioms known_reused_unless_replaced
+#print axioms generated_attribute_values_need_no_escaping
+#print axioms xml_cache_coherent
+
+end Txdbus.Intro
